@@ -21,6 +21,8 @@ var vhEpFails [12]bool // failure pattern: the k-th send attempt fails iff vhEpF
 var vhEpCalls int
 var vhEpGot []string // messages accepted by the endpoint, in arrival order
 var vhEpMu sync.Mutex
+var vhEpCloseAt = -1 // the hook is closed (deleted / replaced by SETHOOK) while this send attempt is in flight
+var vhEpHook *Hook
 
 // vhEpHandle is what the endpoint does with the k-th request (shared by the model and the HTTP server).
 func vhEpHandle(msg string) bool {
@@ -28,6 +30,9 @@ func vhEpHandle(msg string) bool {
 	defer vhEpMu.Unlock()
 	k := vhEpCalls
 	vhEpCalls++
+	if k == vhEpCloseAt && vhEpHook != nil {
+		vhEpHook.Close()
+	}
 	if k < len(vhEpFails) && vhEpFails[k] {
 		return false
 	}
@@ -65,7 +70,7 @@ func vhQueued(s *Server, hook string) []string {
 	return out
 }
 
-//verif:cfg use=epmodel b_messages=3(+1_queued_between_calls) b_endpoints=1..2 b_proc_calls=3 b_failure_pattern=any_over_the_first_12_send_attempts b_other_hook_messages=1 ignorego=1
+//verif:cfg use=epmodel b_messages=3(+1_queued_between_calls) b_endpoints=1..2 b_proc_calls=3 b_failure_pattern=any_over_the_first_12_send_attempts b_hook_closed=never|during_one_of_the_first_4_send_attempts b_other_hook_messages=1 ignorego=1
 func VH_C10_webhook_retry() {
 	s := vhServer()
 	for i := range vhEpFails {
@@ -75,6 +80,9 @@ func VH_C10_webhook_retry() {
 	eps := vhEndpoints(1 + vchoose(2))
 	h := &Hook{Name: "h", Endpoints: eps, db: s.qdb, epm: vhEpManager(s), counter: &s.statsTotalMsgsSent,
 		cond: sync.NewCond(&sync.Mutex{}), query: `{"hook":"h"}`}
+	// the hook may be closed (DELHOOK, or SETHOOK replacing it) while one of the first sends is in flight: what it
+	// already took from the queue is still delivered or put back
+	vhEpCloseAt, vhEpHook = vchoose(5)-1, h
 	vhQueueMsg(s, "h", "1")
 	vhQueueMsg(s, "other", "x") // another hook's message must be left alone
 	vhQueueMsg(s, "h", "2")
